@@ -12,4 +12,5 @@ INVARIANT Inv_CacheCoherent
 INVARIANT Inv_PdfNormalised
 INVARIANT Inv_CondCoherent
 INVARIANT Inv_Transform
+INVARIANT Inv_IntLogCond
 INVARIANT Inv_Export
